@@ -29,6 +29,15 @@ type subRec struct {
 	class     string // honest / foreign-signed / bad-sig / tampered / ...
 }
 
+// lateAck is an honest acknowledgement that was in flight for a while: the
+// client behind call q issued it in answer to one delivery (of a message that
+// call answers had submitted), stamped with the epoch it had been told then;
+// the harness submitted it on q's stream later.
+type lateAck struct {
+	issue, submit int64
+	answers       *g7sig.Call
+}
+
 // world is one server instance plus the harness-side ground truth of one case.
 type world struct {
 	r    *vf.Run
@@ -46,6 +55,7 @@ type world struct {
 	msgSeq   map[string]uint64 // per sender: message seqno counter
 	acksSub  map[*g7sig.Call]map[uint64][]int64
 	clearSub map[*g7sig.Call]map[uint64][]int64
+	lateAcks map[*g7sig.Call]map[uint64][]lateAck // acks issued in answer to a delivery and submitted later
 	viol     int
 	inconcl  bool
 }
@@ -54,7 +64,8 @@ func newWorld(r *vf.Run, name string, ids []*keys.Identity) *world {
 	return &world{r: r, name: name, h: g7sig.New(), ids: ids,
 		startGen: map[*g7sig.Call]int{}, seenLive: map[*g7sig.Call]bool{}, misbehav: map[*g7sig.Call]string{},
 		subs: map[string][]*subRec{}, msgSeq: map[string]uint64{},
-		acksSub: map[*g7sig.Call]map[uint64][]int64{}, clearSub: map[*g7sig.Call]map[uint64][]int64{}}
+		acksSub: map[*g7sig.Call]map[uint64][]int64{}, clearSub: map[*g7sig.Call]map[uint64][]int64{},
+		lateAcks: map[*g7sig.Call]map[uint64][]lateAck{}}
 }
 
 func (w *world) logf(f string, a ...any) { w.log = append(w.log, fmt.Sprintf(f, a...)) }
@@ -391,6 +402,21 @@ func (w *world) checkUnique() {
 				w.violate(kind+"/ended-without-replaced-error", fmt.Sprintf("%s ended on its own with error %v (expected %q)", w.cstr(c), err, userped))
 			} else {
 				w.r.Count("c25_replaced_error_seen", 1)
+				// "a newer call replaces the older one": a call may only end as replaced
+				// if some other call of the key can have registered AFTER it. Every call
+				// started before a quiescent point has registered by then, so a replacer
+				// was started in the same or a later quiescence interval than c.
+				newer := false
+				for _, o := range cs {
+					if o != c && w.startGen[o] >= w.startGen[c] {
+						newer = true
+					}
+				}
+				if !newer {
+					w.violate(kind+"/newest-ended-as-replaced", fmt.Sprintf("%s ended with the replaced error although no call of its key was started after it registered (it is the newest call of the key)", w.cstr(c)))
+				} else {
+					w.r.Count("c25_replacer_exists", 1)
+				}
 			}
 		}
 		w.r.Count("c25_key_checks", 1)
